@@ -535,13 +535,6 @@ fn is_queued(r: &Reply) -> bool {
     *r == Reply::Simple(b"QUEUED".to_vec())
 }
 
-struct TxObs {
-    /// body commands that were answered +QUEUED, in order
-    queued: Vec<Argv>,
-    /// a queue-time error was reported for a command other than MULTI/WATCH
-    flagged: bool,
-}
-
 /// Check one queue-time reply; update the observation.
 fn on_queue_reply(item: &BodyItem, r: &Reply, obs: &mut TxObsMut<'_>) -> Result<(), String> {
     let obs = &mut *obs.0;
